@@ -312,3 +312,49 @@ Example shopcart_nonvacuous :
   Sc.query g s 1 = [0; 1] /\ Sc.query g s 2 = [0; 1] /\ Sc.know s 2 0 = true /\
   Sc.out_code (Sc.step g s (Sc.ENode 1)) = 0 /\ Sc.out_code (Sc.step g (Sc.exec g [Sc.ENode 1; Sc.ENode 1]) (Sc.ENode 1)) = 1.
 Proof. vm_compute. repeat split; reflexivity. Qed.
+
+(* ================================================================== nestedcrdtimpl *)
+(* the generated archetype ACRDTResource with the grow-only counter the deployment plugs into the spec's CONSTANT
+   operators, driven by the spec's Node process *)
+From PGV Require C16.Nested C16.NestedProofs.
+Module Ne := PGV.C16.Nested.
+Module NeP := PGV.C16.NestedProofs.
+
+(* the spec's MonotonicState: in every step (every configuration, every interleaving, every branch of the `either`,
+   every target of the `with`) no component of any replica's state decreases *)
+Theorem nested_monotonic_state : forall g evs e s', Ne.step g (Ne.exec g evs) e = Ne.Ok s' ->
+  forall r k, Ne.st (Ne.exec g evs) r k <= Ne.st s' r k.
+Proof. intros g evs e s'. exact (NeP.step_monotone g (Ne.exec g evs) e s'). Qed.
+Print Assumptions nested_monotonic_state.
+
+(* ... hence along every continuation, and the value a replica shows (VIEW_FN) never decreases *)
+Theorem nested_counters_never_decrease : forall g evs1 evs2 r k,
+  Ne.st (Ne.exec g evs1) r k <= Ne.st (Ne.run g (Ne.exec g evs1) evs2) r k.
+Proof. intros g evs1 evs2. exact (NeP.run_monotone g evs2 (Ne.exec g evs1)). Qed.
+Print Assumptions nested_counters_never_decrease.
+
+Theorem nested_view_never_decreases : forall g evs1 evs2 r,
+  Ne.VIEW g (Ne.st (Ne.exec g evs1) r) <= Ne.VIEW g (Ne.st (Ne.run g (Ne.exec g evs1) evs2) r).
+Proof. intros g evs1 evs2. exact (NeP.view_monotone g evs2 (Ne.exec g evs1)). Qed.
+Print Assumptions nested_view_never_decreases.
+
+(* StateSanity exactly as written in NestedCRDTImpl.tla sums SETS of values (equal values collapse) and is false in a
+   reachable state: two nodes, one committed write each, replicas synchronised: Sum({2,2}) = 2 > Sum({1,1}) = 1.
+   This is a defect of the spec's formula, not of the generated code (the bound it intends holds in that state). *)
+Theorem nested_state_sanity_as_written_refuted :
+  exists g evs, Ne.state_sanity_as_written g (Ne.exec g evs) = false /\ Ne.state_sanity_intended g (Ne.exec g evs) = true.
+Proof. exact NeP.state_sanity_as_written_refuted_lemma. Qed.
+Print Assumptions nested_state_sanity_as_written_refuted.
+
+(* full statements not proved for nestedcrdtimpl (checked by the implementation-side oracle on every walk): the bound
+   StateSanity intends — no replica counts more than the writes the nodes have issued — and assertion freedom *)
+Definition nested_state_sanity_intended_statement : Prop :=
+  forall g evs, Ne.state_sanity_intended g (Ne.exec g evs) = true.
+Definition nested_assertion_free_statement : Prop :=
+  forall g evs e, Ne.step g (Ne.exec g evs) e <> Ne.AssertFail /\ Ne.step g (Ne.exec g evs) e <> Ne.TypeError.
+
+Example nested_nonvacuous :
+  let g := Ne.mkCfg 2 1 1 in
+  let s := Ne.exec g NeP.sanity_witness in
+  Ne.VIEW g (Ne.st s 3) = 2 /\ Ne.VIEW g (Ne.st s 4) = 2 /\ Ne.wAch s 1 = 1 /\ Ne.wAch s 2 = 1 /\ Ne.npc_ s 1 = Ne.NCrit.
+Proof. vm_compute. repeat split; reflexivity. Qed.
